@@ -1145,12 +1145,14 @@ long ov_bitrate(OggVorbis_File *vf,int i){
      * so this is slightly transformed to make it work.
      */
     if(ov_time_total(vf,-1)<=0.)return(OV_FALSE); /* no audio: no rate */
+    if(bits<0)return(OV_FALSE); /* link table of a damaged file */
     br = bits/ov_time_total(vf,-1);
     return(rint(br));
   }else{
     if(vf->seekable){
       /* return the actual bitrate */
       if(ov_time_total(vf,i)<=0.)return(OV_FALSE); /* a link with no audio */
+      if(vf->offsets[i+1]<vf->dataoffsets[i])return(OV_FALSE); /* damaged */
       return(rint((vf->offsets[i+1]-vf->dataoffsets[i])*8/ov_time_total(vf,i)));
     }else{
       /* return nominal if set */
